@@ -168,13 +168,13 @@ pub fn hist_cfg(id: &str, thorough: bool) -> Option<HistCfg> {
         "C14" => HistCfg {
             id: "C14",
             on: vec!["C14"],
-            mix: Mix { timetravel: 6, commit: 7, meldrefresh: 7, reload: 2, ..base },
+            mix: Mix { timetravel: 6, commit: 7, meldrefresh: 7, reload: 2, rich: true, ..base },
             max_len: len(60, 120),
             n_min: 2,
             n_max: 3,
             with_fin: false,
             nontrivial: |k| c(k, "c14_nontrivial_travels") > 0,
-            rule: "history with merges; TimeTravel reloads to a head set the replica had earlier; oracle: observation = recorded one, heads, applied = ancestry, every revision's (value,parent) as first seen, new_until, and reload returns to latest; non-trivial = multi-head target or ancestry with a merge, with blocks outside the ancestry",
+            rule: "history with merges and rich JSON contents (strings with quotes, braces, backslashes, non-ASCII; all number kinds); TimeTravel reloads to a head set the replica had earlier; oracle: observation = recorded one, heads, applied = ancestry, every revision's (value,parent) as first seen, new_until, and reload returns to latest; non-trivial = multi-head target or ancestry with a merge, with blocks outside the ancestry",
         },
         "C15" => HistCfg {
             id: "C15",
